@@ -891,6 +891,20 @@ def gen() -> None:
         if a not in t.used_atoms:
             raise px.Unsupported(f"_process_range_request: expected sub-expression `{a}` no longer occurs")
     out += "End Dates.\n"
+
+    out += "\n(* ---- T2: wsgi.FileWrapper.seekable *)\n"
+    fw = px.find_class(px.load("wsgi.py"), "FileWrapper")
+    fn = find_method(fw, "seekable")
+    expect_params(fn, ["self"], "FileWrapper.seekable")
+    t = T2("FileWrapper.seekable", {},
+           atoms={"hasattr(self.file, 'seekable')": ("Ok has_seekable", "bool"),
+                  "self.file.seekable()": ("Ok file_seekable", "bool"),
+                  "hasattr(self.file, 'seek')": ("Ok has_seek", "bool")})
+    out += ("Definition file_wrapper_seekable (has_seekable file_seekable has_seek : bool) : res bool :=\n  "
+            + t.S(body_wo_doc(fn), None) + ".\n")
+    for a in t.atoms:
+        if a not in t.used_atoms:
+            raise px.Unsupported(f"FileWrapper.seekable: expected sub-expression `{a}` no longer occurs")
     px.write_if_changed(os.path.join(COQ, "C11", "Gen.v"), out)
 
 
@@ -928,6 +942,95 @@ class NoSeek:
 
     def close(self):
         pass
+
+
+class OneWayRaw(io.RawIOBase):
+    """forward-only raw stream (a socket or pipe): seekable() is False, the inherited seek() raises UnsupportedOperation"""
+
+    def __init__(self, data):
+        super().__init__()
+        self._b = io.BytesIO(data)
+
+    def readable(self):
+        return True
+
+    def seekable(self):
+        return False
+
+    def readinto(self, b):
+        chunk = self._b.read(len(b))
+        b[: len(chunk)] = chunk
+        return len(chunk)
+
+
+class SeekAttrNotSeekable:
+    """read(), a seek attribute that refuses, seekable() == False"""
+
+    def __init__(self, data):
+        self._b = io.BytesIO(data)
+
+    def read(self, n=-1):
+        return self._b.read(n)
+
+    def seekable(self):
+        return False
+
+    def seek(self, *a):
+        raise io.UnsupportedOperation("seek")
+
+    def tell(self):
+        raise io.UnsupportedOperation("tell")
+
+    def close(self):
+        pass
+
+
+class SeekOnly:
+    """read(), working seek() / tell(), no seekable() method"""
+
+    def __init__(self, data):
+        self._b = io.BytesIO(data)
+
+    def read(self, n=-1):
+        return self._b.read(n)
+
+    def seek(self, *a):
+        return self._b.seek(*a)
+
+    def tell(self):
+        return self._b.tell()
+
+    def close(self):
+        pass
+
+
+# wrapper kinds: (has a seekable() method, what it answers, has a seek attribute) = what FileWrapper.seekable() has to go by
+WRAP_KINDS = {"file": (1, 1, 1), "file_np": (1, 1, 1), "file_noseek": (0, 0, 0), "fw_raw": (1, 0, 1), "fw_buffered": (1, 0, 1),
+              "fw_seekattr": (1, 0, 1), "fw_seekonly": (0, 0, 1), "fw_pipe": (1, 0, 1)}
+
+
+def open_file(kind: str, data: bytes):
+    if kind in ("file", "file_np"):
+        return io.BytesIO(data)
+    if kind == "file_noseek":
+        return NoSeek(data)
+    if kind == "fw_raw":
+        return OneWayRaw(data)
+    if kind == "fw_buffered":
+        return io.BufferedReader(OneWayRaw(data))
+    if kind == "fw_seekattr":
+        return SeekAttrNotSeekable(data)
+    if kind == "fw_seekonly":
+        return SeekOnly(data)
+    if kind == "fw_pipe":
+        r, w = os.pipe()
+        try:
+            if data:
+                os.write(w, data)
+        finally:
+            os.close(w)
+        return os.fdopen(r, "rb")
+    raise ValueError(kind)
 
 
 def chunkings(rng, data: bytes, allow_empty=True) -> list[bytes]:
@@ -1120,7 +1223,8 @@ def gen_case(rng, L=None, kind=None, bs=None, focus=None, cur=None, lm_sec=None)
     c.sf_path = c.sf_etag = c.sf_lm = None
     L = rng.randint(0, 40) if L is None else L
     c.data = bytes((37 * i + 11) % 251 for i in range(L))
-    c.kind = kind or rng.choice(["list", "gen", "file", "file_noseek", "file_np"])
+    c.kind = kind or rng.choice(["list", "gen", "file", "file_noseek", "file_np", "list", "gen", "file", "fw_raw", "fw_buffered",
+                                 "fw_seekattr", "fw_seekonly"] + (["fw_pipe"] if rng.random() < 0.3 else []))
     c.bs = bs or rng.randint(1, 9)
     c.chunks = chunkings(rng, c.data) if c.kind in ("list", "gen") else None
     c.method = rng.choice(["GET"] * 6 + ["HEAD"] * 2 + ["POST", "PUT", "get"])
@@ -1177,9 +1281,8 @@ def gen_case(rng, L=None, kind=None, bs=None, focus=None, cur=None, lm_sec=None)
 def body_field(c: Case) -> str:
     if c.kind in ("list", "gen"):
         return "L:" + "/".join(hexs(x) for x in c.chunks)
-    if c.kind in ("file", "file_np"):
-        return f"F:{c.bs}:{hexs(c.data)}"
-    return "L:" + "/".join(hexs(x) for x in blocks_of(c.data, c.bs))
+    hs, fs, hk = WRAP_KINDS[c.kind]
+    return f"W:{c.bs}:{hs}:{fs}:{hk}:{hexs(c.data)}"
 
 
 def model_line(c: Case, parse_date) -> str:
@@ -1201,7 +1304,7 @@ def model_line(c: Case, parse_date) -> str:
     acc = "T" if c.accept is True else "F" if c.accept is False else "S:" + cps(c.accept)
     return " ".join(["mc", cps(c.method), o(c.range), o(c.if_range), o(c.ims), o(c.inm), o(c.im), o(c.etag), o(c.lm), acc,
                      "~" if c.clen is None else str(c.clen), str(c.status0), o(c.preset_cl),
-                     "1" if c.kind in ("file", "file_noseek") else "0", body_field(c), ";".join(sorted(set(dates))) or "-"])
+                     "1" if c.kind in WRAP_KINDS and c.kind != "file_np" else "0", body_field(c), ";".join(sorted(set(dates))) or "-"])
 
 
 def build_response(c: Case, env):
@@ -1211,12 +1314,10 @@ def build_response(c: Case, env):
         r = Response(list(c.chunks))
     elif c.kind == "gen":
         r = Response(x for x in list(c.chunks))
-    elif c.kind == "file":
-        r = Response(wrap_file(env, io.BytesIO(c.data), c.bs), direct_passthrough=True)
     elif c.kind == "file_np":
-        r = Response(wrap_file(env, io.BytesIO(c.data), c.bs))
+        r = Response(wrap_file(env, open_file(c.kind, c.data), c.bs))
     else:
-        r = Response(wrap_file(env, NoSeek(c.data), c.bs), direct_passthrough=True)
+        r = Response(wrap_file(env, open_file(c.kind, c.data), c.bs), direct_passthrough=True)
     r.status_code = c.status0
     if c.etag is not None:
         r.headers["ETag"] = c.etag
@@ -1249,8 +1350,22 @@ def send_file_call(c: Case, env, conditional=True):
                      conditional=conditional)
 
 
+_OPEN: list = []
+
+
 def run_impl(c: Case):
-    """-> (canonical line, observation dict)"""
+    """-> (canonical line, observation dict); whatever happens, the response (and its file) is closed afterwards"""
+    try:
+        return _run_impl(c)
+    finally:
+        while _OPEN:
+            try:
+                _OPEN.pop().close()
+            except Exception:  # noqa: BLE001
+                pass
+
+
+def _run_impl(c: Case):
     from werkzeug.exceptions import RequestedRangeNotSatisfiable
     env = build_environ(c)
     try:
@@ -1258,6 +1373,7 @@ def run_impl(c: Case):
             r = with_timeout(send_file_call, 5, c, env)
         else:
             r = build_response(c, env)
+            _OPEN.append(r)
             with_timeout(r.make_conditional, 5, env, accept_ranges=c.accept, complete_length=c.clen)
     except RequestedRangeNotSatisfiable as e:
         hd = dict(e.get_headers())
@@ -1303,7 +1419,7 @@ def oracle(chk: Check, c: Case, obs) -> None:
     st = obs["status"]
     inp = c.to_input()
     if isinstance(st, str):
-        chk.fail("raises", f"make_conditional / the response iterator: {st}", inp)
+        chk.fail("raises:" + st, f"make_conditional / the response iterator raises ({st}) for body kind {c.kind}", inp)
         return
     cond_method = c.method in ("GET", "HEAD")
     # ---- the 206 clause: holds for whatever request produced the 206
@@ -1533,7 +1649,7 @@ def run(chk: Check) -> None:
     cases = corpus_cases()
     n_corpus = len(cases)
     # systematic: every resource length x a fixed family of Range specs x body kinds x block sizes
-    kinds = ["list", "gen", "file", "file_noseek", "file_np"]
+    kinds = ["list", "gen", "file", "file_noseek", "file_np", "fw_raw", "fw_buffered", "fw_seekattr", "fw_seekonly"]
     for L in range(0, 41):
         specs = [("bytes=0-", ("single", 0, None)), (f"bytes=0-{L}", ("single", 0, L)), (f"bytes={L}-", ("single", L, None)),
                  (f"bytes=-{max(L, 1)}", ("suffix", max(L, 1))), (f"bytes=-{L + 1}", ("suffix", L + 1)), ("bytes=-1", ("suffix", 1)),
@@ -1727,12 +1843,13 @@ def run(chk: Check) -> None:
             it, field = list(chunks), "L:" + "/".join(hexs(x) for x in chunks)
         elif kind == "gen":
             it, field = (x for x in list(chunks)), "L:" + "/".join(hexs(x) for x in chunks)
-        elif kind == "file":
-            it, field = FileWrapper(io.BytesIO(data), bs), f"F:{bs}:{hexs(data)}"
         else:
-            it, field = FileWrapper(NoSeek(data), bs), "L:" + "/".join(hexs(x) for x in blocks_of(data, bs))
+            hs, fs, hk = WRAP_KINDS[kind]
+            it, field = FileWrapper(open_file(kind, data), bs), f"W:{bs}:{hs}:{fs}:{hk}:{hexs(data)}"
         try:
             got = with_timeout(lambda: list(_RangeWrapper(it, start, ln)), 3)
+            if hasattr(it, "close"):
+                it.close()
             res = "/".join(hexs(x) for x in got)
         except ImplTimeout:
             got, res = None, "timeout"
@@ -1776,15 +1893,16 @@ def run(chk: Check) -> None:
         for bs in range(1, n + 2):
             for start in range(0, n + 1):
                 for ln in range(0, n - start + 2):
-                    rw_case("file", data, None, bs, start, ln)
-                    rw_case("file_noseek", data, None, bs, start, ln)
-                    nrw += 2
+                    for k in ("file", "file_noseek", "fw_raw", "fw_buffered", "fw_seekattr", "fw_seekonly"):
+                        rw_case(k, data, None, bs, start, ln)
+                        nrw += 1
     chk.count("_RangeWrapper(exhaustive: bodies up to 4 bytes, every chunking with one optional empty chunk, every start/length)", nrw)
     n_w = 4000 if quick else 80000
     for _ in range(n_w):
         L = rng.randint(0, 40)
         data = bytes((37 * i + 11) % 251 for i in range(L))
-        kind = rng.choice(["list", "gen", "file", "file_noseek"])
+        kind = rng.choice(["list", "gen", "file", "file_noseek", "fw_raw", "fw_buffered", "fw_seekattr", "fw_seekonly"]
+                          + (["fw_pipe"] if rng.random() < 0.2 else []))
         start = rng.randint(0, L + 2)
         ln = rng.choice([0, 1, 2, rng.randint(0, L + 3), max(L - start, 0)])
         rw_case(kind, data, chunkings(rng, data), rng.randint(1, 9), start, ln)
@@ -1920,7 +2038,7 @@ def replay(rep) -> int:
         if inp["kind"] in ("list", "gen"):
             it = [bytes.fromhex(x) for x in inp["chunks"]]
         else:
-            it = FileWrapper(io.BytesIO(data) if inp["kind"] == "file" else NoSeek(data), inp["bs"])
+            it = FileWrapper(open_file(inp["kind"], data), inp["bs"])
         print("observed:", list(_RangeWrapper(it, inp["start"], inp["length"])), "expected bytes:",
               data[inp["start"]:inp["start"] + inp["length"]])
         return 0
